@@ -1,7 +1,1594 @@
-//! C19: not implemented yet.
+//! C19: semantically equivalent formulations of a query return the same bag of rows.
+//!
+//! MODEL-FREE (metamorphic): both formulations run on the same TurDB database and their results are
+//! compared with each other. The sqlm expression/query AST and the generators are used only to build
+//! and render SQL. The check can NOT tell which of two disagreeing formulations is wrong; it reports
+//! the pair of SQL texts with both results.
+//!
+//! Relations (segment 2 of the signature):
+//!   partition     rows(WHERE p) + rows(WHERE NOT (p)) + rows(WHERE (p) IS NULL) == rows without WHERE
+//!   commute       AND/OR operands mirrored at every level (WHERE or ON)
+//!   reorder       FROM items of comma / inner joins permuted; select items permuted (up to the column permutation)
+//!   add_true      `AND 1=1`, `AND id = id`, `OR 1=0`, `WHERE 1=1`
+//!   on_vs_where   predicate in ON vs in WHERE vs comma join, INNER joins
+//!   derived       FROM t WHERE p  vs FROM (SELECT * FROM t) AS s WHERE p  vs FROM (SELECT * FROM t WHERE p) AS s
+//!   index         the same query before and after CREATE INDEX on a filtered column
+//!   dialect_*     partition / commute / add_true over VECTOR distance, JSONB access and ROW_NUMBER() predicates
+use crate::report::Ctx;
+use crate::rng::{fnv, Rng};
+use crate::sqlm::cmp::bag_diff;
+use crate::sqlm::db::{is_panic, panic_tag, Db, Scratch};
+use crate::sqlm::expr::{bin, shrink_expr, BinOp, E};
+use crate::sqlm::gen::{gen_num, gen_pred, gen_spec, scope_of, ExprOpts, ScopeCol, TableSpec, Ty, WORDS};
+use crate::sqlm::query::{FromItem, Item, Join, JoinKind, Query, Select};
+use crate::sqlm::val::{rows_json, Row, V};
 use crate::Args;
+use serde_json::{json, Value as J};
+use std::collections::{BTreeMap, BTreeSet};
 
-pub fn run(_a: &Args) -> i32 {
-    println!("INCONCLUSIVE property=C19 reason=check not implemented yet");
-    2
+// ---------------------------------------------------------------------------------------------
+// small AST helpers
+// ---------------------------------------------------------------------------------------------
+
+fn tbl(name: &str) -> FromItem {
+    FromItem::Table { name: name.to_string(), alias: None }
+}
+fn item(e: E) -> Item {
+    Item::Expr { e, alias: None }
+}
+fn raw(s: &str) -> E {
+    E::Lit(V::Other(s.to_string()))
+}
+fn and(a: E, b: E) -> E {
+    bin(BinOp::And, a, b)
+}
+fn or(a: E, b: E) -> E {
+    bin(BinOp::Or, a, b)
+}
+fn not(a: E) -> E {
+    E::Not(Box::new(a))
+}
+fn is_null(a: E) -> E {
+    E::IsNull(Box::new(a), false)
+}
+fn int(i: i64) -> E {
+    E::Lit(V::Int(i))
+}
+fn col_of(c: &ScopeCol) -> E {
+    E::Col { tbl: c.tbl.clone(), name: c.name.clone() }
+}
+fn conj(a: Option<E>, b: Option<E>) -> Option<E> {
+    match (a, b) {
+        (Some(a), Some(b)) => Some(and(a, b)),
+        (Some(a), None) | (None, Some(a)) => Some(a),
+        (None, None) => None,
+    }
+}
+
+/// swap the operands of every AND/OR node
+fn mirror(e: &E) -> E {
+    match e {
+        E::Bin(op, a, b) if matches!(op, BinOp::And | BinOp::Or) => E::Bin(*op, Box::new(mirror(b)), Box::new(mirror(a))),
+        E::Not(x) => E::Not(Box::new(mirror(x))),
+        other => other.clone(),
+    }
+}
+
+/// stable class of an error message: its first words, letters only
+fn err_class(e: &str) -> String {
+    if is_panic(e) {
+        return format!("panic@{}", panic_tag(e));
+    }
+    e.split(|c: char| !c.is_ascii_alphabetic()).filter(|w| !w.is_empty()).take(6).collect::<Vec<_>>().join("_").to_lowercase()
+}
+
+/// feature tags of an expression incl. the dialect fragments that are carried as raw SQL
+fn feats(e: &E, out: &mut BTreeSet<String>) {
+    e.features(out);
+    e.visit(&mut |x| {
+        if let E::Lit(V::Other(s)) = x {
+            if s.contains("<->") {
+                out.insert("vec_l2".into());
+            }
+            if s.contains("<=>") {
+                out.insert("vec_cos".into());
+            }
+            if s.contains("->>") {
+                out.insert("json_get_text".into());
+            } else if s.contains(" -> ") {
+                out.insert("json_get".into());
+            }
+        }
+        if let E::Col { name, .. } = x {
+            if name == "rn" {
+                out.insert("col:row_number".into());
+            }
+            if name == "sm" {
+                out.insert("col:window_sum".into());
+            }
+        }
+    });
+    // the generic "cmp(lit,...)" tag of a raw fragment carries no information
+    let generic: Vec<String> = out.iter().filter(|t| t.starts_with("cmp(") && (t.contains("(lit,") || t.contains(",lit)"))).cloned().collect();
+    for g in generic {
+        out.remove(&g);
+        out.insert(g.replace("(lit,", "(dialect,").replace(",lit)", ",dialect)"));
+    }
+}
+
+// ---------------------------------------------------------------------------------------------
+// sources (FROM shapes) shared by the relations
+// ---------------------------------------------------------------------------------------------
+
+#[derive(Clone, Debug)]
+enum Shape {
+    /// FROM t
+    Table(String),
+    /// FROM (SELECT * FROM t) AS s
+    Derived(String),
+    /// FROM a INNER JOIN b ON cond
+    Inner(String, String),
+    /// FROM a, b WHERE cond AND ..
+    Comma(String, String),
+    /// FROM (<raw select with a window function>) AS s
+    Window(String),
+}
+
+impl Shape {
+    fn tag(&self) -> &'static str {
+        match self {
+            Shape::Table(_) => "table",
+            Shape::Derived(_) => "derived_table",
+            Shape::Inner(..) => "inner_join",
+            Shape::Comma(..) => "comma_join",
+            Shape::Window(_) => "window_derived",
+        }
+    }
+    fn needs_cond(&self) -> bool {
+        matches!(self, Shape::Inner(..) | Shape::Comma(..))
+    }
+}
+
+/// render `SELECT items FROM shape [ON cond] [WHERE w]`; for comma joins the join condition is a WHERE conjunct
+fn render(shape: &Shape, items: &[Item], cond: Option<&E>, w: Option<E>) -> String {
+    match shape {
+        Shape::Table(t) => Select { items: items.to_vec(), from: vec![tbl(t)], where_: w, ..Default::default() }.sql(),
+        Shape::Derived(t) => {
+            let inner = Query::Select(Select { items: vec![Item::Star], from: vec![tbl(t)], ..Default::default() });
+            Select { items: items.to_vec(), from: vec![FromItem::Sub { query: Box::new(inner), alias: "s".into() }], where_: w, ..Default::default() }.sql()
+        }
+        Shape::Inner(a, b) => Select { items: items.to_vec(), from: vec![tbl(a)], joins: vec![Join { kind: JoinKind::Inner, item: tbl(b), on: cond.cloned() }], where_: w, ..Default::default() }.sql(),
+        Shape::Comma(a, b) => Select { items: items.to_vec(), from: vec![tbl(a), tbl(b)], where_: conj(cond.cloned(), w), ..Default::default() }.sql(),
+        Shape::Window(inner) => {
+            let frame = Select { items: items.to_vec(), from: vec![tbl("\u{0}")], where_: w, ..Default::default() }.sql();
+            frame.replace("FROM \u{0}", &format!("FROM ({}) AS s", inner))
+        }
+    }
+}
+
+// ---------------------------------------------------------------------------------------------
+// pairs and verdicts
+// ---------------------------------------------------------------------------------------------
+
+#[derive(Clone, Debug)]
+struct Pair {
+    /// results of these statements are united as bags
+    left: Vec<String>,
+    right: Vec<String>,
+    /// left column k corresponds to right column perm[k]
+    perm: Option<Vec<usize>>,
+    /// run the left side on the index-free twin database (relation `index`)
+    left_plain: bool,
+    /// (tag when the left side has fewer rows, tag when the left side has more rows); None = symmetric relation
+    sides: Option<(&'static str, &'static str)>,
+}
+
+impl Pair {
+    fn two(l: String, r: String) -> Pair {
+        Pair { left: vec![l], right: vec![r], perm: None, left_plain: false, sides: None }
+    }
+    fn texts_differ(&self) -> bool {
+        self.left != self.right
+    }
+}
+
+enum Verdict {
+    Held { left_sizes: Vec<usize>, right_sizes: Vec<usize>, width: usize },
+    BothErr(String, String),
+    Fail { assertion: String, side: String, detail: J },
+}
+
+struct World {
+    specs: Vec<TableSpec>,
+    /// CREATE TABLE + INSERT statements (no secondary index)
+    setup: Vec<String>,
+    /// CREATE INDEX statements applied to `db` so far
+    index_sql: Vec<String>,
+    db: Db,
+    /// lazily built copy of the database WITHOUT secondary indexes
+    plain: Option<Db>,
+    dbi: usize,
+    dialect_ok: bool,
+}
+
+impl World {
+    fn plain<'a>(&'a mut self, sc: &Scratch) -> Option<&'a mut Db> {
+        if self.plain.is_none() {
+            let mut d = Db::create(&sc.dir(&format!("db{}p", self.dbi))).ok()?;
+            for s in &self.setup {
+                if d.exec(s).is_err() {
+                    return None;
+                }
+            }
+            self.plain = Some(d);
+        }
+        self.plain.as_mut()
+    }
+}
+
+fn run_side(db: &mut Db, sqls: &[String]) -> Result<(Vec<Row>, Vec<usize>), String> {
+    let mut all = vec![];
+    let mut sizes = vec![];
+    for s in sqls {
+        let rows = db.query(s)?;
+        sizes.push(rows.len());
+        all.extend(rows);
+    }
+    Ok((all, sizes))
+}
+
+/// run both sides and compare them as bags. `all_plain`: run BOTH sides on the index-free twin.
+fn judge(w: &mut World, sc: &Scratch, pair: &Pair, all_plain: bool) -> Verdict {
+    let l = if pair.left_plain || all_plain {
+        match w.plain(sc) {
+            Some(d) => run_side(d, &pair.left),
+            None => Err("cannot build index-free twin".into()),
+        }
+    } else {
+        run_side(&mut w.db, &pair.left)
+    };
+    let r = if all_plain {
+        match w.plain(sc) {
+            Some(d) => run_side(d, &pair.right),
+            None => Err("cannot build index-free twin".into()),
+        }
+    } else {
+        run_side(&mut w.db, &pair.right)
+    };
+    // the statement logs are only needed for setup; keep them short
+    w.db.log.clear();
+    if let Some(p) = w.plain.as_mut() {
+        p.log.clear();
+    }
+    match (l, r) {
+        (Err(a), Err(b)) => Verdict::BothErr(a, b),
+        (Ok((lr, _)), Err(e)) => Verdict::Fail { assertion: "one_side_error".into(), side: format!("right:{}", err_class(&e)), detail: json!({"right_error": e, "left_rows": lr.len(), "left": rows_json(&lr, 12)}) },
+        (Err(e), Ok((rr, _))) => Verdict::Fail { assertion: "one_side_error".into(), side: format!("left:{}", err_class(&e)), detail: json!({"left_error": e, "right_rows": rr.len(), "right": rows_json(&rr, 12)}) },
+        (Ok((lr, ls)), Ok((rr, rs))) => {
+            let lw = lr.first().map(|r| r.len());
+            let rw = rr.first().map(|r| r.len());
+            if let (Some(a), Some(b)) = (lw, rw) {
+                if a != b {
+                    return Verdict::Fail { assertion: "width".into(), side: String::new(), detail: json!({"left_width": a, "right_width": b, "left": rows_json(&lr, 4), "right": rows_json(&rr, 4)}) };
+                }
+            }
+            let rr2: Vec<Row> = match &pair.perm {
+                Some(p) if rw == Some(p.len()) => rr.iter().map(|r| p.iter().map(|i| r[*i].clone()).collect()).collect(),
+                _ => rr.clone(),
+            };
+            match bag_diff(&lr, &rr2) {
+                None => Verdict::Held { left_sizes: ls, right_sizes: rs, width: lw.or(rw).unwrap_or(0) },
+                Some(d) => {
+                    let missing = d["missing"].as_array().map(|a| !a.is_empty()).unwrap_or(false);
+                    let extra = d["extra"].as_array().map(|a| !a.is_empty()).unwrap_or(false);
+                    let side = match (&pair.sides, missing, extra) {
+                        (Some((fewer, _)), true, false) => fewer.to_string(),
+                        (Some((_, more)), false, true) => more.to_string(),
+                        (Some(_), _, _) => "rows_differ".to_string(),
+                        (None, _, _) => String::new(),
+                    };
+                    Verdict::Fail {
+                        assertion: "bag".into(),
+                        side,
+                        detail: json!({"left_rows": lr.len(), "right_rows": rr.len(), "left_part_sizes": ls, "right_part_sizes": rs,
+                            "only_in_right_or_fewer_in_left": d["missing"], "only_in_left_or_fewer_in_right": d["extra"],
+                            "left": rows_json(&lr, 12), "right": rows_json(&rr2, 12)}),
+                    }
+                }
+            }
+        }
+    }
+}
+
+// ---------------------------------------------------------------------------------------------
+// cases
+// ---------------------------------------------------------------------------------------------
+
+struct Case {
+    /// "<relation>" or "<relation>:<variant>"
+    relation: String,
+    /// structural tags that are part of the signature (FROM shape, ..)
+    tags: Vec<String>,
+    /// the predicates the pair is built from; None = clause omitted
+    preds: Vec<Option<E>>,
+    /// which predicates may be dropped entirely while shrinking
+    optional: Vec<bool>,
+    /// per predicate: a trivial replacement (always TRUE on the generated data / the primary-key equi-join) and the
+    /// tag that replaces the predicate's feature set when the disagreement persists with it
+    trivial: Vec<Vec<(E, &'static str)>>,
+    /// which predicates are join conditions (tagged by class: equijoin / thetajoin)
+    is_cond: Vec<bool>,
+    /// the select list and its class ("star" / "cols" / "" = fixed by the relation)
+    items: Sel,
+    build: Box<dyn Fn(&[Option<E>], &[Item]) -> Pair>,
+}
+
+/// a select list with the alternatives tried while shrinking: the class tag stays in the signature only
+/// if the disagreement disappears under one of the alternatives
+#[derive(Clone, Default)]
+struct Sel {
+    items: Vec<Item>,
+    tag: &'static str,
+    alts: Vec<Vec<Item>>,
+}
+
+/// canonical replacements for a WHERE predicate: always TRUE on the data (`id IS NOT NULL`), then a plain selective
+/// range on a primary key (`id <= 2`) of each table in scope. If the disagreement persists, the predicate's own
+/// features are not part of the cause.
+fn trivial_true(scope: &[ScopeCol]) -> Vec<(E, &'static str)> {
+    let mut v = vec![(E::IsNull(Box::new(col_of(&scope[0])), true), "trivial_pred")];
+    for c in scope.iter().filter(|c| c.name == "id") {
+        v.push((bin(BinOp::Le, col_of(c), int(2)), "pk_range_pred"));
+    }
+    v
+}
+
+/// join conditions are not replaced by a canonical one (that would switch the join algorithm and with it the
+/// root cause); instead a plain column-to-column condition is tagged by its class only
+fn trivial_cond(_sh: &Shape) -> Vec<(E, &'static str)> {
+    vec![]
+}
+
+/// `a.x = b.y` -> "equijoin", `a.x < b.y` -> "thetajoin"; anything else keeps its feature set
+fn cond_class(e: &E) -> Option<&'static str> {
+    match e {
+        E::Bin(op, a, b) if op.is_cmp() => match (&**a, &**b) {
+            (E::Col { tbl: Some(x), .. }, E::Col { tbl: Some(y), .. }) if x != y => Some(if *op == BinOp::Eq { "equijoin" } else { "thetajoin" }),
+            _ => None,
+        },
+        _ => None,
+    }
+}
+
+/// access paths / join algorithms named in EXPLAIN (Project, Filter, Sort, Limit are not access paths)
+fn plan_ops(plan: &str, out: &mut BTreeSet<String>) {
+    for line in plan.lines() {
+        if let Some(i) = line.find("-> ") {
+            let op: String = line[i + 3..].chars().take_while(|c| c.is_ascii_alphanumeric()).collect();
+            if !op.is_empty() && !matches!(op.as_str(), "Project" | "Filter" | "Sort" | "Limit" | "TopK") {
+                out.insert(op);
+            }
+        }
+    }
+}
+
+/// the set of access paths used by the statements of a pair ("?" if EXPLAIN is refused)
+fn pair_paths(w: &mut World, sc: &Scratch, pair: &Pair) -> String {
+    let mut ops = BTreeSet::new();
+    for (k, sqls) in [&pair.left, &pair.right].iter().enumerate() {
+        for s in sqls.iter() {
+            let plan = if k == 0 && pair.left_plain {
+                match w.plain(sc) {
+                    Some(d) => d.explain(s),
+                    None => None,
+                }
+            } else {
+                w.db.explain(s)
+            };
+            match plan {
+                Some(p) => plan_ops(&p, &mut ops),
+                None => {
+                    ops.insert("?".into());
+                }
+            }
+        }
+    }
+    ops.into_iter().collect::<Vec<_>>().join("+")
+}
+
+fn base_relation(r: &str) -> &str {
+    r.split(':').next().unwrap_or(r)
+}
+
+// ---------------------------------------------------------------------------------------------
+// generators
+// ---------------------------------------------------------------------------------------------
+
+fn cmp_op(rng: &mut Rng) -> BinOp {
+    *rng.pick(&[BinOp::Eq, BinOp::Ne, BinOp::Lt, BinOp::Le, BinOp::Gt, BinOp::Ge])
+}
+
+/// atoms the shared generator does not produce: CASE / COALESCE / NULLIF inside a comparison
+fn gen_atom_ext(rng: &mut Rng, scope: &[ScopeCol]) -> E {
+    let o = ExprOpts::all();
+    let op = cmp_op(rng);
+    match rng.below(3) {
+        0 => {
+            let w = gen_pred(rng, scope, 1, &o);
+            let t = gen_num(rng, scope, 1, &o, false);
+            let els = if rng.chance(2, 3) { Some(Box::new(gen_num(rng, scope, 0, &o, false))) } else { None };
+            bin(op, E::Case { whens: vec![(w, t)], els }, gen_num(rng, scope, 0, &o, false))
+        }
+        1 => bin(op, E::Func("COALESCE".into(), vec![gen_num(rng, scope, 1, &o, false), int(rng.range(-5, 12))]), gen_num(rng, scope, 0, &o, false)),
+        _ => bin(op, E::Func("NULLIF".into(), vec![gen_num(rng, scope, 0, &o, false), int(rng.range(-5, 12))]), gen_num(rng, scope, 0, &o, false)),
+    }
+}
+
+fn gen_p(rng: &mut Rng, scope: &[ScopeCol], depth: u32, ext: bool) -> E {
+    let o = ExprOpts::all();
+    if ext {
+        let a = gen_atom_ext(rng, scope);
+        if depth == 0 || rng.chance(1, 3) {
+            return a;
+        }
+        let b = gen_pred(rng, scope, depth - 1, &o);
+        let (x, y) = if rng.chance(1, 2) { (a, b) } else { (b, a) };
+        return if rng.chance(1, 2) { and(x, y) } else { or(x, y) };
+    }
+    gen_pred(rng, scope, depth, &o)
+}
+
+/// predicate whose top node is AND/OR (so that mirroring changes the text)
+fn gen_andor(rng: &mut Rng, scope: &[ScopeCol], depth: u32, ext: bool) -> E {
+    let d = depth.max(1) - 1;
+    let a = gen_p(rng, scope, d, ext);
+    let b = gen_p(rng, scope, d, false);
+    if rng.chance(1, 2) {
+        and(a, b)
+    } else {
+        or(a, b)
+    }
+}
+
+/// predicate of random depth <= maxd; `maybe_ext`: with probability 1/5 it contains a CASE/COALESCE/NULLIF atom
+fn gen_pd(rng: &mut Rng, scope: &[ScopeCol], maxd: u32, maybe_ext: bool) -> E {
+    let d = depth(rng).min(maxd);
+    let ext = maybe_ext && rng.chance(1, 5);
+    gen_p(rng, scope, d, ext)
+}
+
+fn depth(rng: &mut Rng) -> u32 {
+    *rng.pick(&[0u32, 1, 1, 2, 2, 3])
+}
+
+/// join condition between two tables (qualified columns): mostly an equality between same-typed columns
+fn gen_join_cond(rng: &mut Rng, a: &TableSpec, b: &TableSpec) -> E {
+    let sa = scope_of(a, Some(&a.name));
+    let sb = scope_of(b, Some(&b.name));
+    let mut pairs: Vec<(&ScopeCol, &ScopeCol)> = vec![];
+    for x in &sa {
+        for y in &sb {
+            if x.ty == y.ty && matches!(x.ty, Ty::Int | Ty::Text) {
+                pairs.push((x, y));
+            }
+        }
+    }
+    let r = rng.below(10);
+    if r < 7 || pairs.is_empty() {
+        if pairs.is_empty() || rng.chance(1, 5) {
+            return bin(BinOp::Eq, col_of(&sa[0]), col_of(&sb[0])); // id = id
+        }
+        let (x, y) = *rng.pick(&pairs);
+        let (l, rr) = if rng.chance(1, 2) { (col_of(x), col_of(y)) } else { (col_of(y), col_of(x)) };
+        return bin(BinOp::Eq, l, rr);
+    }
+    if r < 9 {
+        let (x, y) = *rng.pick(&pairs);
+        return bin(cmp_op(rng), col_of(x), col_of(y));
+    }
+    let mut joint = sa.clone();
+    joint.extend(sb.iter().cloned());
+    gen_pred(rng, &joint, 1, &ExprOpts::all())
+}
+
+/// `join`: over a join `*` is not offered as an alternative (it is compared against the column list by `star_vs_cols`)
+fn pick_items(rng: &mut Rng, scope: &[ScopeCol], join: bool, star_pm: u64) -> Sel {
+    let all: Vec<Item> = scope.iter().map(|c| item(col_of(c))).collect();
+    if rng.below(1000) < star_pm {
+        return Sel { items: vec![Item::Star], tag: "star", alts: vec![all] };
+    }
+    let n = rng.usize(1, scope.len().min(4));
+    let mut idx: Vec<usize> = (0..scope.len()).collect();
+    rng.shuffle(&mut idx);
+    idx.truncate(n);
+    let items = idx.into_iter().map(|i| item(col_of(&scope[i]))).collect();
+    Sel { items, tag: "cols", alts: if join { vec![all] } else { vec![vec![Item::Star], all] } }
+}
+
+/// a random FROM shape over the ordinary tables with its scope
+fn gen_shape(rng: &mut Rng, specs: &[TableSpec], allow: &[&str]) -> (Shape, Vec<ScopeCol>) {
+    let kind = *rng.pick(allow);
+    let ti = rng.below(2) as usize;
+    match kind {
+        "table" => (Shape::Table(specs[ti].name.clone()), scope_of(&specs[ti], None)),
+        "derived" => (Shape::Derived(specs[ti].name.clone()), scope_of(&specs[ti], None)),
+        _ => {
+            let (a, b) = if rng.chance(1, 2) { (0, 1) } else { (1, 0) };
+            let (a, b) = if rng.chance(1, 4) { (a, 2) } else { (a, b) };
+            let mut sc = scope_of(&specs[a], Some(&specs[a].name));
+            sc.extend(scope_of(&specs[b], Some(&specs[b].name)));
+            let sh = if kind == "inner" { Shape::Inner(specs[a].name.clone(), specs[b].name.clone()) } else { Shape::Comma(specs[a].name.clone(), specs[b].name.clone()) };
+            (sh, sc)
+        }
+    }
+}
+
+fn spec_by_name<'a>(specs: &'a [TableSpec], n: &str) -> &'a TableSpec {
+    specs.iter().find(|s| s.name == n).unwrap()
+}
+
+fn shape_cond(rng: &mut Rng, specs: &[TableSpec], sh: &Shape) -> Option<E> {
+    match sh {
+        Shape::Inner(a, b) | Shape::Comma(a, b) => Some(gen_join_cond(rng, spec_by_name(specs, a), spec_by_name(specs, b))),
+        _ => None,
+    }
+}
+
+fn shape_tags(sh: &Shape) -> Vec<String> {
+    vec![sh.tag().to_string()]
+}
+
+const ALL_SHAPES: &[&str] = &["table", "table", "table", "derived", "inner", "inner", "comma"];
+
+// (1) ternary partition -------------------------------------------------------------------------
+fn partition_case(relation: &str, sh: Shape, scope: &[ScopeCol], items: Sel, p: E, cond: Option<E>) -> Case {
+    Case {
+        relation: relation.to_string(),
+        tags: shape_tags(&sh),
+        preds: vec![Some(p), cond],
+        optional: vec![false, false],
+        is_cond: vec![false, true],
+        trivial: vec![trivial_true(scope), trivial_cond(&sh)],
+        items,
+        build: Box::new(move |ps, items| {
+            let p = ps[0].clone().unwrap();
+            let c = ps[1].as_ref();
+            Pair {
+                left: vec![render(&sh, items, c, Some(p.clone())), render(&sh, items, c, Some(not(p.clone()))), render(&sh, items, c, Some(is_null(p)))],
+                right: vec![render(&sh, items, c, None)],
+                perm: None,
+                left_plain: false,
+                sides: Some(("partition_loses_rows", "partition_gains_rows")),
+            }
+        }),
+    }
+}
+
+fn star_pm(sh: &Shape) -> u64 {
+    if sh.needs_cond() {
+        120
+    } else {
+        450
+    }
+}
+
+fn rel_partition(rng: &mut Rng, specs: &[TableSpec]) -> Case {
+    let (sh, scope) = gen_shape(rng, specs, ALL_SHAPES);
+    let items = pick_items(rng, &scope, sh.needs_cond(), star_pm(&sh));
+    let p = gen_pd(rng, &scope, 3, true);
+    let cond = shape_cond(rng, specs, &sh);
+    partition_case("partition", sh, &scope, items, p, cond)
+}
+
+// (2) commuting AND/OR ---------------------------------------------------------------------------
+fn commute_case(relation: &str, sh: Shape, items: Sel, p: E, cond: Option<E>, in_on: bool) -> Case {
+    let mut tags = shape_tags(&sh);
+    if in_on {
+        tags.push("in_on".into());
+    }
+    Case {
+        relation: relation.to_string(),
+        tags,
+        preds: vec![Some(p), cond],
+        optional: vec![false, in_on],
+        is_cond: vec![false, true],
+        trivial: vec![vec![], trivial_cond(&sh)],
+        items,
+        build: Box::new(move |ps, items| {
+            let p = ps[0].clone().unwrap();
+            let c = ps[1].clone();
+            if in_on {
+                // the AND/OR predicate is (part of) the ON condition
+                let on1 = conj(c.clone(), Some(p.clone())).unwrap();
+                let on2 = match c {
+                    Some(c) => and(mirror(&p), c),
+                    None => mirror(&p),
+                };
+                Pair::two(render(&sh, items, Some(&on1), None), render(&sh, items, Some(&on2), None))
+            } else {
+                Pair::two(render(&sh, items, c.as_ref(), Some(p.clone())), render(&sh, items, c.as_ref(), Some(mirror(&p))))
+            }
+        }),
+    }
+}
+
+fn rel_commute(rng: &mut Rng, specs: &[TableSpec]) -> Case {
+    let (sh, scope) = gen_shape(rng, specs, ALL_SHAPES);
+    let items = pick_items(rng, &scope, sh.needs_cond(), star_pm(&sh));
+    let d = depth(rng).max(1);
+    let ext = rng.chance(1, 5);
+    let p = gen_andor(rng, &scope, d, ext);
+    let in_on = matches!(sh, Shape::Inner(..)) && rng.chance(1, 2);
+    let cond = if in_on && rng.chance(1, 2) { None } else { shape_cond(rng, specs, &sh) };
+    commute_case("commute", sh, items, p, cond, in_on)
+}
+
+// (3) reordering ---------------------------------------------------------------------------------
+fn rel_reorder(rng: &mut Rng, specs: &[TableSpec]) -> Case {
+    let kind = rng.below(10);
+    if kind < 4 {
+        // select items permuted
+        let (sh, scope) = gen_shape(rng, specs, ALL_SHAPES);
+        let n = rng.usize(2, scope.len().min(5));
+        let mut idx: Vec<usize> = (0..scope.len()).collect();
+        rng.shuffle(&mut idx);
+        idx.truncate(n);
+        let o = ExprOpts::all();
+        let mut exprs: Vec<E> = idx.iter().map(|i| col_of(&scope[*i])).collect();
+        let mut has_expr = false;
+        if rng.chance(1, 3) {
+            let k = rng.below(exprs.len() as u64) as usize;
+            exprs[k] = gen_num(rng, &scope, 2, &o, false);
+            has_expr = true;
+        }
+        // a permutation that is not the identity
+        let mut perm: Vec<usize> = (0..n).collect();
+        for _ in 0..8 {
+            rng.shuffle(&mut perm);
+            if perm.iter().enumerate().any(|(i, p)| i != *p) {
+                break;
+            }
+        }
+        let p = if rng.chance(3, 4) { Some(gen_pd(rng, &scope, 3, false)) } else { None };
+        let cond = shape_cond(rng, specs, &sh);
+        let mut tags = shape_tags(&sh);
+        if has_expr {
+            tags.push("item_expr".into());
+        }
+        // right select list: position j holds left item perm[j]; so left column k is right column inv[k]
+        let mut inv = vec![0usize; n];
+        for (j, k) in perm.iter().enumerate() {
+            inv[*k] = j;
+        }
+        return Case {
+            relation: "reorder:select_items".into(),
+            tags,
+            preds: vec![p, cond],
+            optional: vec![true, false],
+            is_cond: vec![false, true],
+            trivial: vec![trivial_true(&scope), trivial_cond(&sh)],
+            items: Sel::default(),
+            build: Box::new(move |ps, _| {
+                let l: Vec<Item> = exprs.iter().cloned().map(item).collect();
+                let r: Vec<Item> = perm.iter().map(|k| item(exprs[*k].clone())).collect();
+                let mut pr = Pair::two(render(&sh, &l, ps[1].as_ref(), ps[0].clone()), render(&sh, &r, ps[1].as_ref(), ps[0].clone()));
+                pr.perm = Some(inv.clone());
+                pr
+            }),
+        };
+    }
+    if kind < 8 {
+        // two FROM items swapped (comma or inner join); explicit columns, so no column permutation is involved
+        let comma = rng.chance(1, 2);
+        let (sh, scope) = gen_shape(rng, specs, if comma { &["comma"] } else { &["inner"] });
+        let (a, b) = match &sh {
+            Shape::Inner(a, b) | Shape::Comma(a, b) => (a.clone(), b.clone()),
+            _ => unreachable!(),
+        };
+        let sh2 = if comma { Shape::Comma(b.clone(), a.clone()) } else { Shape::Inner(b.clone(), a.clone()) };
+        let items = pick_items(rng, &scope, true, 0);
+        let p = if rng.chance(3, 4) { Some(gen_pd(rng, &scope, 3, false)) } else { None };
+        let cond = shape_cond(rng, specs, &sh);
+        return Case {
+            relation: "reorder:from_items".into(),
+            tags: shape_tags(&sh),
+            preds: vec![p, cond],
+            optional: vec![true, false],
+            is_cond: vec![false, true],
+            trivial: vec![trivial_true(&scope), trivial_cond(&sh)],
+            items,
+            build: Box::new(move |ps, items| Pair::two(render(&sh, items, ps[1].as_ref(), ps[0].clone()), render(&sh2, items, ps[1].as_ref(), ps[0].clone()))),
+        };
+    }
+    // three FROM items: t, u, w with conditions (t,u) and (t,w); the last two items swapped
+    let comma = rng.chance(1, 2);
+    let names: Vec<String> = specs.iter().take(3).map(|s| s.name.clone()).collect();
+    let mut scope = vec![];
+    for s in specs.iter().take(3) {
+        scope.extend(scope_of(s, Some(&s.name)));
+    }
+    let items = pick_items(rng, &scope, true, 0);
+    let c1 = gen_join_cond(rng, &specs[0], &specs[1]);
+    let c2 = gen_join_cond(rng, &specs[0], &specs[2]);
+    let p = if rng.chance(2, 3) { Some(gen_pd(rng, &scope, 2, false)) } else { None };
+    let t1 = trivial_cond(&Shape::Inner(names[0].clone(), names[1].clone()));
+    let t2 = trivial_cond(&Shape::Inner(names[0].clone(), names[2].clone()));
+    Case {
+        relation: "reorder:from_items3".into(),
+        tags: vec![if comma { "comma_join".into() } else { "inner_join".into() }],
+        preds: vec![p, Some(c1), Some(c2)],
+        optional: vec![true, false, false],
+        is_cond: vec![false, true, true],
+        trivial: vec![trivial_true(&scope), t1, t2],
+        items,
+        build: Box::new(move |ps, items| {
+            let mk = |order: [usize; 2]| -> String {
+                let conds = [ps[1].clone().unwrap(), ps[2].clone().unwrap()];
+                if comma {
+                    let from = vec![tbl(&names[0]), tbl(&names[order[0]]), tbl(&names[order[1]])];
+                    Select { items: items.to_vec(), from, where_: conj(Some(and(conds[0].clone(), conds[1].clone())), ps[0].clone()), ..Default::default() }.sql()
+                } else {
+                    let joins = order.iter().map(|k| Join { kind: JoinKind::Inner, item: tbl(&names[*k]), on: Some(conds[*k - 1].clone()) }).collect();
+                    Select { items: items.to_vec(), from: vec![tbl(&names[0])], joins, where_: ps[0].clone(), ..Default::default() }.sql()
+                }
+            };
+            Pair::two(mk([1, 2]), mk([2, 1]))
+        }),
+    }
+}
+
+// (3b) `*` vs the explicit list of all columns in FROM order ------------------------------------------
+fn rel_star_vs_cols(rng: &mut Rng, specs: &[TableSpec]) -> Case {
+    let (sh, scope) = gen_shape(rng, specs, ALL_SHAPES);
+    let all: Vec<Item> = scope.iter().map(|c| item(col_of(c))).collect();
+    let p = if rng.chance(2, 3) { Some(gen_pd(rng, &scope, 2, false)) } else { None };
+    let cond = shape_cond(rng, specs, &sh);
+    Case {
+        relation: "star_vs_cols".into(),
+        tags: shape_tags(&sh),
+        preds: vec![p, cond],
+        optional: vec![true, false],
+        is_cond: vec![false, true],
+        trivial: vec![trivial_true(&scope), trivial_cond(&sh)],
+        items: Sel::default(),
+        build: Box::new(move |ps, _| {
+            let mut pr = Pair::two(render(&sh, &[Item::Star], ps[1].as_ref(), ps[0].clone()), render(&sh, &all, ps[1].as_ref(), ps[0].clone()));
+            pr.sides = Some(("star_form_fewer_rows", "cols_form_fewer_rows"));
+            pr
+        }),
+    }
+}
+
+// (4) always-true conjuncts / always-false disjuncts ---------------------------------------------
+fn add_true_case(relation_prefix: &str, variant: &str, sh: Shape, scope: &[ScopeCol], items: Sel, p: Option<E>, cond: Option<E>) -> Case {
+    let v = variant.to_string();
+    let id_col = col_of(&scope[0]);
+    Case {
+        relation: format!("{}:{}", relation_prefix, variant),
+        tags: shape_tags(&sh),
+        preds: vec![p, cond],
+        optional: vec![v == "where_1eq1", false],
+        is_cond: vec![false, true],
+        trivial: vec![trivial_true(scope), trivial_cond(&sh)],
+        items,
+        build: Box::new(move |ps, items| {
+            let c = ps[1].as_ref();
+            let one = || bin(BinOp::Eq, int(1), int(1));
+            let zero = || bin(BinOp::Eq, int(1), int(0));
+            let orig = ps[0].clone();
+            let aug = match (v.as_str(), orig.clone()) {
+                (_, None) => one(),
+                ("where_1eq1", Some(p)) => and(p, one()),
+                ("and_1eq1_right", Some(p)) => and(p, one()),
+                ("and_1eq1_left", Some(p)) => and(one(), p),
+                ("and_id_eq_id", Some(p)) => and(p, bin(BinOp::Eq, id_col.clone(), id_col.clone())),
+                ("or_1eq0_right", Some(p)) => or(p, zero()),
+                ("or_1eq0_left", Some(p)) => or(zero(), p),
+                (_, Some(p)) => p,
+            };
+            let mut pr = Pair::two(render(&sh, items, c, orig), render(&sh, items, c, Some(aug)));
+            pr.sides = Some(("augmented_gains_rows", "augmented_loses_rows"));
+            pr
+        }),
+    }
+}
+
+const TRUE_VARIANTS: &[&str] = &["and_1eq1_right", "and_1eq1_left", "and_id_eq_id", "or_1eq0_right", "or_1eq0_left", "where_1eq1"];
+
+fn rel_add_true(rng: &mut Rng, specs: &[TableSpec]) -> Case {
+    let (sh, scope) = gen_shape(rng, specs, ALL_SHAPES);
+    let items = pick_items(rng, &scope, sh.needs_cond(), star_pm(&sh));
+    let variant = *rng.pick(TRUE_VARIANTS);
+    let p = if variant == "where_1eq1" { None } else { Some(gen_pd(rng, &scope, 3, true)) };
+    let cond = shape_cond(rng, specs, &sh);
+    add_true_case("add_true", variant, sh, &scope, items, p, cond)
+}
+
+// (5) predicate in ON vs in WHERE ----------------------------------------------------------------
+fn rel_on_vs_where(rng: &mut Rng, specs: &[TableSpec]) -> Case {
+    let (sh, scope) = gen_shape(rng, specs, &["inner"]);
+    let (a, b) = match &sh {
+        Shape::Inner(a, b) => (a.clone(), b.clone()),
+        _ => unreachable!(),
+    };
+    let items = pick_items(rng, &scope, true, 0);
+    let cond = shape_cond(rng, specs, &sh).unwrap();
+    // p over one side's columns (the pushdown case) or over both
+    let p = if rng.chance(1, 2) {
+        let one = if rng.chance(1, 2) { &a } else { &b };
+        let s1 = scope_of(spec_by_name(specs, one), Some(one));
+        gen_pd(rng, &s1, 2, false)
+    } else {
+        gen_pd(rng, &scope, 2, false)
+    };
+    let forms = ["on_c_and_p", "on_c_where_p", "comma_where_c_and_p", "on_p_where_c"];
+    let i = rng.below(4) as usize;
+    let mut j = rng.below(3) as usize;
+    if j >= i {
+        j += 1;
+    }
+    let (i, j) = (i.min(j), i.max(j));
+    Case {
+        relation: format!("on_vs_where:{}|{}", forms[i], forms[j]),
+        tags: vec![],
+        preds: vec![Some(p), Some(cond)],
+        optional: vec![false, false],
+        is_cond: vec![false, true],
+        trivial: vec![trivial_true(&scope), trivial_cond(&sh)],
+        items,
+        build: Box::new(move |ps, items| {
+            let p = ps[0].clone().unwrap();
+            let c = ps[1].clone().unwrap();
+            let inner = Shape::Inner(a.clone(), b.clone());
+            let comma = Shape::Comma(a.clone(), b.clone());
+            let mk = |f: usize| match f {
+                0 => render(&inner, items, Some(&and(c.clone(), p.clone())), None),
+                1 => render(&inner, items, Some(&c), Some(p.clone())),
+                2 => render(&comma, items, Some(&c), Some(p.clone())),
+                _ => render(&inner, items, Some(&p), Some(c.clone())),
+            };
+            let mut pr = Pair::two(mk(i), mk(j));
+            pr.sides = Some(("first_form_fewer_rows", "second_form_fewer_rows"));
+            pr
+        }),
+    }
+}
+
+// (6) derived tables -----------------------------------------------------------------------------
+fn rel_derived(rng: &mut Rng, specs: &[TableSpec]) -> Case {
+    let ti = rng.below(2) as usize;
+    let t = specs[ti].name.clone();
+    let scope = scope_of(&specs[ti], None);
+    let items = pick_items(rng, &scope, false, 250);
+    let p = gen_pd(rng, &scope, 3, true);
+    // inner select list: `*` or all columns by name
+    let inner_star = rng.chance(2, 3);
+    let inner_items: Vec<Item> = if inner_star { vec![Item::Star] } else { scope.iter().map(|c| item(col_of(c))).collect() };
+    let forms = ["plain", "outer_where", "inner_where"];
+    let i = rng.below(3) as usize;
+    let mut j = rng.below(2) as usize;
+    if j >= i {
+        j += 1;
+    }
+    let (i, j) = (i.min(j), i.max(j));
+    let mut tags = vec![];
+    if !inner_star {
+        tags.push("inner_cols".to_string());
+    }
+    Case {
+        relation: format!("derived:{}|{}", forms[i], forms[j]),
+        tags,
+        preds: vec![Some(p)],
+        optional: vec![false],
+        is_cond: vec![false],
+        trivial: vec![trivial_true(&scope)],
+        items,
+        build: Box::new(move |ps, items| {
+            let p = ps[0].clone().unwrap();
+            let mk = |f: usize| match f {
+                0 => Select { items: items.to_vec(), from: vec![tbl(&t)], where_: Some(p.clone()), ..Default::default() }.sql(),
+                1 => {
+                    let inner = Query::Select(Select { items: inner_items.clone(), from: vec![tbl(&t)], ..Default::default() });
+                    Select { items: items.to_vec(), from: vec![FromItem::Sub { query: Box::new(inner), alias: "s".into() }], where_: Some(p.clone()), ..Default::default() }.sql()
+                }
+                _ => {
+                    let inner = Query::Select(Select { items: inner_items.clone(), from: vec![tbl(&t)], where_: Some(p.clone()), ..Default::default() });
+                    Select { items: items.to_vec(), from: vec![FromItem::Sub { query: Box::new(inner), alias: "s".into() }], ..Default::default() }.sql()
+                }
+            };
+            let mut pr = Pair::two(mk(i), mk(j));
+            pr.sides = Some(("first_form_fewer_rows", "second_form_fewer_rows"));
+            pr
+        }),
+    }
+}
+
+// (7) index --------------------------------------------------------------------------------------
+/// a query that filters / joins on the column `c` of table `ti` (the column that gets the index)
+fn rel_index_query(rng: &mut Rng, specs: &[TableSpec], ti: usize, c: &ScopeCol, values: &[V]) -> Case {
+    let spec = &specs[ti];
+    let o = ExprOpts::all();
+    let cv = |rng: &mut Rng| -> E {
+        if !values.is_empty() && rng.chance(3, 4) {
+            E::Lit(rng.pick(values).clone())
+        } else if c.ty == Ty::Text {
+            E::Lit(V::Text(rng.pick(WORDS).to_string()))
+        } else {
+            int(rng.range(-5, 12))
+        }
+    };
+    let join = rng.chance(1, 4);
+    let (sh, scope, ccol): (Shape, Vec<ScopeCol>, E) = if join {
+        let oi = if ti == 0 { 1 } else { 0 };
+        let (first, second) = if rng.chance(1, 2) { (ti, oi) } else { (oi, ti) };
+        let mut sc = scope_of(&specs[first], Some(&specs[first].name));
+        sc.extend(scope_of(&specs[second], Some(&specs[second].name)));
+        (Shape::Inner(specs[first].name.clone(), specs[second].name.clone()), sc, E::Col { tbl: Some(spec.name.clone()), name: c.name.clone() })
+    } else {
+        (Shape::Table(spec.name.clone()), scope_of(spec, None), E::Col { tbl: None, name: c.name.clone() })
+    };
+    // atom on the indexed column
+    let k = rng.below(10);
+    let atom = match k {
+        0..=3 => {
+            let op = if rng.chance(2, 3) { BinOp::Eq } else { cmp_op(rng) };
+            bin(op, ccol.clone(), cv(rng))
+        }
+        4 => {
+            let op = cmp_op(rng);
+            bin(op, cv(rng), ccol.clone())
+        }
+        5 => {
+            let n = rng.usize(1, 3);
+            let l: Vec<E> = (0..n).map(|_| cv(rng)).collect();
+            E::InList(Box::new(ccol.clone()), l, rng.chance(1, 4))
+        }
+        6 => {
+            let (lo, hi) = (cv(rng), cv(rng));
+            E::Between(Box::new(ccol.clone()), Box::new(lo), Box::new(hi), rng.chance(1, 4))
+        }
+        7 => E::IsNull(Box::new(ccol.clone()), rng.chance(1, 2)),
+        8 if c.ty == Ty::Text => E::Like(Box::new(ccol.clone()), Box::new(E::Lit(V::Text(rng.pick(&["a%", "ab%", "%b", "a_c", "%"]).to_string()))), false),
+        _ => {
+            let op = cmp_op(rng);
+            bin(op, ccol.clone(), cv(rng))
+        }
+    };
+    let p = match rng.below(10) {
+        0..=3 => atom,
+        4..=6 => {
+            let q = gen_pred(rng, &scope, 1, &o);
+            if rng.chance(1, 2) {
+                and(atom, q)
+            } else {
+                and(q, atom)
+            }
+        }
+        7..=8 => or(atom, gen_pred(rng, &scope, 1, &o)),
+        _ => not(atom),
+    };
+    let cond = if join {
+        // join on the indexed column where the types allow it (index nested loop candidates)
+        let other = match &sh {
+            Shape::Inner(a, b) => {
+                if *a == spec.name {
+                    b.clone()
+                } else {
+                    a.clone()
+                }
+            }
+            _ => unreachable!(),
+        };
+        let os = scope_of(spec_by_name(specs, &other), Some(&other));
+        let same: Vec<&ScopeCol> = os.iter().filter(|x| x.ty == c.ty).collect();
+        if !same.is_empty() && rng.chance(2, 3) {
+            Some(bin(BinOp::Eq, col_of(*rng.pick(&same)), ccol.clone()))
+        } else {
+            shape_cond(rng, specs, &sh)
+        }
+    } else {
+        None
+    };
+    let items = pick_items(rng, &scope, join, if join { 0 } else { 400 });
+    let mut tags = shape_tags(&sh);
+    tags.push(format!(
+        "index_on_{}",
+        match c.ty {
+            Ty::Int => "int",
+            Ty::Float => "float",
+            Ty::Text => "text",
+            Ty::Bool => "bool",
+        }
+    ));
+    Case {
+        relation: "index".into(),
+        tags,
+        preds: vec![Some(p), cond],
+        optional: vec![false, false],
+        is_cond: vec![false, true],
+        trivial: vec![vec![], vec![]],
+        items,
+        build: Box::new(move |ps, items| {
+            let q = render(&sh, items, ps[1].as_ref(), ps[0].clone());
+            Pair { left: vec![q.clone()], right: vec![q], perm: None, left_plain: true, sides: Some(("indexed_gains_rows", "indexed_loses_rows")) }
+        }),
+    }
+}
+
+// (8) dialect features ---------------------------------------------------------------------------
+const DIALECT_CREATE: &str = "CREATE TABLE d (id BIGINT PRIMARY KEY, g BIGINT, i BIGINT, v VECTOR(3), j JSONB)";
+
+fn gen_dialect_rows(rng: &mut Rng, n: usize) -> Vec<String> {
+    let mut out = vec![];
+    for id in 1..=n {
+        let g = if rng.chance(1, 6) { "NULL".to_string() } else { rng.range(1, 3).to_string() };
+        let i = if rng.chance(1, 5) { "NULL".to_string() } else { V::Int(rng.range(-3, 8)).sql() };
+        let v = if rng.chance(1, 6) {
+            "NULL".to_string()
+        } else {
+            format!("'[{:.2}, {:.2}, {:.2}]'", rng.range(-8, 8) as f64 / 4.0, rng.range(-8, 8) as f64 / 4.0, rng.range(-8, 8) as f64 / 4.0)
+        };
+        let j = if rng.chance(1, 6) {
+            "NULL".to_string()
+        } else {
+            let mut parts = vec![];
+            match rng.below(4) {
+                0 => {}
+                1 => parts.push("\"a\": null".to_string()),
+                _ => parts.push(format!("\"a\": {}", rng.range(0, 4))),
+            }
+            if rng.chance(2, 3) {
+                parts.push(format!("\"b\": \"{}\"", rng.pick(&["x", "y", "ab", ""])));
+            }
+            if rng.chance(1, 2) {
+                parts.push(format!("\"n\": {}", rng.range(-2, 9) as f64 / 2.0));
+            }
+            format!("'{{{}}}'", parts.join(", "))
+        };
+        out.push(format!("INSERT INTO d VALUES ({}, {}, {}, {}, {})", id, g, i, v, j));
+    }
+    out
+}
+
+fn gen_vec_atom(rng: &mut Rng) -> E {
+    let lit = format!("'[{:.2}, {:.2}, {:.2}]'", rng.range(-8, 8) as f64 / 4.0, rng.range(-8, 8) as f64 / 4.0, rng.range(-8, 8) as f64 / 4.0);
+    let cos = rng.chance(1, 4);
+    let dist = raw(&format!("(v {} {})", if cos { "<=>" } else { "<->" }, lit));
+    let c = if cos { E::Lit(V::Float(rng.range(0, 8) as f64 / 4.0)) } else { E::Lit(V::Float(rng.range(0, 16) as f64 / 4.0)) };
+    let op = *rng.pick(&[BinOp::Lt, BinOp::Lt, BinOp::Le, BinOp::Gt, BinOp::Ge]);
+    bin(op, dist, c)
+}
+
+fn gen_json_atom(rng: &mut Rng) -> E {
+    match rng.below(6) {
+        0 => {
+            let op = *rng.pick(&[BinOp::Eq, BinOp::Ne]);
+            bin(op, raw("(j ->> 'b')"), E::Lit(V::Text(rng.pick(&["x", "y", "ab", ""]).to_string())))
+        }
+        1 => {
+            let op = *rng.pick(&[BinOp::Eq, BinOp::Ne]);
+            bin(op, raw("(j ->> 'a')"), E::Lit(V::Text(rng.range(0, 4).to_string())))
+        }
+        2 => E::IsNull(Box::new(raw(*rng.pick(&["(j -> 'a')", "(j ->> 'b')", "(j -> 'n')", "(j ->> 'zz')"]))), rng.chance(1, 2)),
+        3 => {
+            let op = cmp_op(rng);
+            bin(op, raw("(j -> 'a')"), int(rng.range(0, 4)))
+        }
+        4 => {
+            let op = cmp_op(rng);
+            bin(op, raw("(j -> 'n')"), E::Lit(V::Float(rng.range(-2, 9) as f64 / 2.0)))
+        }
+        _ => E::Like(Box::new(raw("(j ->> 'b')")), Box::new(E::Lit(V::Text(rng.pick(&["a%", "%", "_", "x"]).to_string()))), rng.chance(1, 3)),
+    }
+}
+
+fn dialect_scope() -> Vec<ScopeCol> {
+    ["id", "g", "i"].iter().map(|n| ScopeCol { tbl: None, name: n.to_string(), ty: Ty::Int }).collect()
+}
+
+const WINDOW_FORMS: &[(&str, &str)] = &[
+    ("rn_part_g_by_id", "SELECT id, g, i, ROW_NUMBER() OVER (PARTITION BY g ORDER BY id) AS rn FROM d"),
+    ("rn_part_g_by_id_desc", "SELECT id, g, i, ROW_NUMBER() OVER (PARTITION BY g ORDER BY id DESC) AS rn FROM d"),
+    ("rn_by_id", "SELECT id, g, i, ROW_NUMBER() OVER (ORDER BY id) AS rn FROM d"),
+    ("rn_part_g_by_i_id", "SELECT id, g, i, ROW_NUMBER() OVER (PARTITION BY g ORDER BY i, id) AS rn FROM d"),
+    ("sum_part_g", "SELECT id, g, i, SUM(i) OVER (PARTITION BY g) AS sm FROM d"),
+];
+
+/// relations (1), (2), (4) over a dialect predicate; generated only if the plain `WHERE atom` form is accepted
+fn rel_dialect(rng: &mut Rng, w: &mut World, ctx: &mut Ctx) -> Option<Case> {
+    let kind = *rng.pick(&["vec", "vec", "json", "json", "window", "window"]);
+    let o = ExprOpts::all();
+    let (sh, scope, atom, sub): (Shape, Vec<ScopeCol>, E, String) = match kind {
+        "vec" => (Shape::Table("d".into()), dialect_scope(), gen_vec_atom(rng), "vec".into()),
+        "json" => (Shape::Table("d".into()), dialect_scope(), gen_json_atom(rng), "json".into()),
+        _ => {
+            let (name, inner) = *rng.pick(WINDOW_FORMS);
+            let wc = if name.starts_with("sum") { "sm" } else { "rn" };
+            let mut sc = dialect_scope();
+            sc.push(ScopeCol { tbl: None, name: wc.to_string(), ty: Ty::Int });
+            let wcol = E::Col { tbl: None, name: wc.to_string() };
+            let atom = match rng.below(4) {
+                0 => bin(BinOp::Eq, wcol, int(rng.range(1, 3))),
+                1 => {
+                    let op = cmp_op(rng);
+                    bin(op, wcol, int(rng.range(1, 4)))
+                }
+                2 => {
+                    let op = cmp_op(rng);
+                    bin(op, wcol, E::Col { tbl: None, name: (*rng.pick(&["g", "i", "id"])).to_string() })
+                }
+                // a predicate on the non-window columns only: pushing it below the window would change rn
+                _ => gen_pred(rng, &dialect_scope(), 1, &o),
+            };
+            (Shape::Window(inner.to_string()), sc, atom, format!("window:{}", name))
+        }
+    };
+    // acceptance probe: the syntax must be accepted at all; otherwise the feature is not generated
+    let probe_items = vec![item(E::Col { tbl: None, name: "id".into() })];
+    let probe = render(&sh, &probe_items, None, Some(atom.clone()));
+    ctx.count("dialect_probe", 1);
+    if let Err(e) = w.db.query(&probe) {
+        ctx.count(&format!("dialect_rejected:{}:{}", sub, err_class(&e)), 1);
+        if is_panic(&e) {
+            // a panic is never "syntax not accepted"; it is reported as its own violation
+            ctx.violation("no_panic", &format!("C19/dialect_probe/{}/{}", sub.split(':').next().unwrap_or(""), err_class(&e)), json!({"sql": probe, "error": e, "setup": w.setup}));
+        }
+        return None;
+    }
+    let p = match rng.below(10) {
+        0..=3 => atom,
+        4..=6 => {
+            let q = gen_pred(rng, &scope, 1, &o);
+            let (a, b) = if rng.chance(1, 2) { (atom, q) } else { (q, atom) };
+            if rng.chance(1, 2) {
+                and(a, b)
+            } else {
+                or(a, b)
+            }
+        }
+        7 => not(atom),
+        _ => {
+            let q = match kind {
+                "vec" => gen_vec_atom(rng),
+                "json" => gen_json_atom(rng),
+                _ => gen_pred(rng, &scope, 1, &o),
+            };
+            if rng.chance(1, 2) {
+                and(atom, q)
+            } else {
+                or(atom, q)
+            }
+        }
+    };
+    let items = pick_items(rng, &scope, false, 330);
+    let has_andor = matches!(&p, E::Bin(BinOp::And | BinOp::Or, _, _));
+    let mut c = match rng.below(if has_andor { 3 } else { 2 }) {
+        0 => partition_case(&format!("dialect_partition:{}", sub), sh, &scope, items, p, None),
+        1 => {
+            let variant = *rng.pick(&TRUE_VARIANTS[..5]);
+            add_true_case(&format!("dialect_add_true:{}", sub), variant, sh, &scope, items, Some(p), None)
+        }
+        _ => commute_case(&format!("dialect_commute:{}", sub), sh, items, p, None, false),
+    };
+    // the shape is implied by the relation name
+    c.tags.clear();
+    Some(c)
+}
+
+
+// ---------------------------------------------------------------------------------------------
+// running a case: judge, shrink, sign, report
+// ---------------------------------------------------------------------------------------------
+
+#[derive(Default)]
+struct Stats {
+    per_relation: BTreeMap<String, BTreeMap<String, u64>>,
+    sigs: BTreeMap<String, u64>,
+}
+
+impl Stats {
+    fn bump(&mut self, rel: &str, what: &str) {
+        *self.per_relation.entry(rel.to_string()).or_default().entry(what.to_string()).or_insert(0) += 1;
+    }
+}
+
+fn pair_json(p: &Pair) -> J {
+    json!({"left": p.left, "right": p.right, "right_column_permutation": p.perm, "left_runs_on_index_free_twin": p.left_plain})
+}
+
+fn same_fail(v: &Verdict, assertion: &str) -> bool {
+    matches!(v, Verdict::Fail { assertion: a, .. } if a == assertion)
+}
+
+fn items_sql(items: &[Item]) -> String {
+    Select { items: items.to_vec(), ..Default::default() }.sql()
+}
+
+fn run_case(ctx: &mut Ctx, w: &mut World, sc: &Scratch, st: &mut Stats, case: Case, first: Option<Verdict>) {
+    let rel = base_relation(&case.relation).to_string();
+    let pair = (case.build)(&case.preds, &case.items.items);
+    ctx.eval();
+    let v = match first {
+        Some(v) => v,
+        None => judge(w, sc, &pair, false),
+    };
+    match v {
+        Verdict::Held { left_sizes, right_sizes, width } => {
+            st.bump(&rel, "held");
+            let total: usize = left_sizes.iter().sum();
+            // the mechanism was exercised: the two formulations differ as texts (or run with/without the index), rows with
+            // columns came back, and (partition) the predicate splits the rows into at least two non-empty parts
+            let differ = pair.texts_differ() || pair.left_plain;
+            let split = !rel.ends_with("partition") || left_sizes.iter().filter(|n| **n > 0).count() >= 2;
+            if differ && total > 0 && width > 0 && split {
+                st.bump(&rel, "held_nontrivial");
+                ctx.nontrivial(fnv(format!("{:?}{:?}{}", pair.left, pair.right, w.dbi).as_bytes()));
+                if ctx.samples.iter().all(|s| s["relation"] != json!(case.relation)) {
+                    ctx.sample(json!({"relation": case.relation, "pair": pair_json(&pair), "left_part_sizes": left_sizes, "right_part_sizes": right_sizes}));
+                }
+            } else if width == 0 && total > 0 {
+                st.bump(&rel, "held_but_zero_width_rows");
+            }
+        }
+        Verdict::BothErr(a, b) => {
+            st.bump(&rel, "not_judged_both_error");
+            ctx.count(&format!("both_error:{}:{}", rel, err_class(&a)), 1);
+            if is_panic(&a) || is_panic(&b) {
+                ctx.count("both_sides_panic", 1);
+            }
+        }
+        Verdict::Fail { assertion, side: side0, detail: detail0 } => {
+            st.bump(&rel, "failed");
+            // --- shrink: per predicate (a) drop it, (b) replace it by the trivial one, (c) shrink_expr; then the select list
+            let mut cur = case.preds.clone();
+            let mut replaced: Vec<Option<&'static str>> = vec![None; cur.len()];
+            let items0 = case.items.items.clone();
+            let mut budget_left: usize = 160;
+            // a simplification is accepted only if the same sub-assertion still fails AND the statements still take
+            // the same access paths / join algorithms (otherwise the smaller case may fail for a different reason)
+            let paths0 = pair_paths(w, sc, &pair);
+            let accept = |w: &mut World, p: &Pair| -> bool { same_fail(&judge(w, sc, p, false), &assertion) && pair_paths(w, sc, p) == paths0 };
+            for i in 0..cur.len() {
+                if cur[i].is_none() {
+                    continue;
+                }
+                if case.optional[i] {
+                    let mut cand = cur.clone();
+                    cand[i] = None;
+                    if accept(w, &(case.build)(&cand, &items0)) {
+                        cur = cand;
+                        continue;
+                    }
+                }
+                let mut done = false;
+                for (t, tag) in &case.trivial[i] {
+                    let mut cand = cur.clone();
+                    cand[i] = Some(t.clone());
+                    if accept(w, &(case.build)(&cand, &items0)) {
+                        cur = cand;
+                        replaced[i] = Some(*tag);
+                        done = true;
+                        break;
+                    }
+                }
+                if done {
+                    continue;
+                }
+                let start = cur[i].clone().unwrap();
+                let mut used = 0usize;
+                let small = {
+                    let mut fails = |c: &E| {
+                        used += 1;
+                        let mut cand = cur.clone();
+                        cand[i] = Some(c.clone());
+                        accept(w, &(case.build)(&cand, &items0))
+                    };
+                    shrink_expr(&start, &mut fails, budget_left.min(100))
+                };
+                budget_left = budget_left.saturating_sub(used);
+                cur[i] = Some(small);
+            }
+            // does the select list matter? it does if the disagreement disappears under some alternative list
+            let mut items_matter = false;
+            let mut alt_results = vec![];
+            for alt in &case.items.alts {
+                if items_sql(alt) == items_sql(&items0) {
+                    continue;
+                }
+                let still = accept(w, &(case.build)(&cur, alt));
+                alt_results.push(json!({"select_list": items_sql(alt), "still_disagrees": still}));
+                if !still {
+                    items_matter = true;
+                }
+            }
+            let min_pair = (case.build)(&cur, &items0);
+            let (side, min_detail, reproduced) = match judge(w, sc, &min_pair, false) {
+                Verdict::Fail { assertion: a, side, detail } if a == assertion => (side, detail, true),
+                _ => (side0.clone(), J::Null, false),
+            };
+            let mut f = BTreeSet::new();
+            for (i, p) in cur.iter().enumerate() {
+                match (p, replaced[i]) {
+                    (Some(_), Some(tag)) => {
+                        f.insert(tag.to_string());
+                    }
+                    (Some(p), None) => match (case.is_cond[i], cond_class(p)) {
+                        (true, Some(c)) => {
+                            f.insert(c.to_string());
+                        }
+                        _ => feats(p, &mut f),
+                    },
+                    _ => {}
+                }
+            }
+            let paths = pair_paths(w, sc, &min_pair);
+            // does the disagreement need the secondary index? (same minimal pair on the index-free twin)
+            let mut needs_index = false;
+            if !w.index_sql.is_empty() && !min_pair.left_plain && reproduced {
+                if let Verdict::Held { .. } = judge(w, sc, &min_pair, true) {
+                    needs_index = true;
+                }
+            }
+            // signature: coarse, root-cause-indicating components first (so that a known finding can end in `*`):
+            // relation / FROM shape + select-list class / access paths (+ whether the secondary index is needed) /
+            // failing sub-assertion + side / minimal predicate features
+            let mut structural = case.tags.clone();
+            if items_matter && !case.items.tag.is_empty() {
+                structural.push(format!("select_{}", case.items.tag));
+            }
+            if structural.is_empty() {
+                structural.push("-".into());
+            }
+            let mut path_part = if paths.is_empty() { "-".to_string() } else { paths.clone() };
+            if needs_index {
+                path_part.push_str("+needs_secondary_index");
+            }
+            let feat_part = if f.is_empty() { "-".to_string() } else { f.into_iter().collect::<Vec<_>>().join("+") };
+            let mut parts = vec!["C19".to_string(), case.relation.clone(), structural.join("+"), path_part];
+            parts.push(if side.is_empty() { assertion.clone() } else { format!("{}:{}", assertion, side) });
+            parts.push(feat_part);
+            if !reproduced {
+                parts.push("not_reproducible".into());
+            }
+            let sig = parts.join("/");
+            let firstsig = {
+                let e = st.sigs.entry(sig.clone()).or_insert(0);
+                *e += 1;
+                *e == 1
+            };
+            let detail = if firstsig {
+                json!({
+                    "note": "model-free metamorphic check: the two formulations disagree; the check cannot tell which one is wrong",
+                    "relation": case.relation,
+                    "original_pair": pair_json(&pair),
+                    "original_result": detail0,
+                    "minimal_pair": pair_json(&min_pair),
+                    "minimal_result": min_detail,
+                    "minimal_predicates": cur.iter().map(|p| p.as_ref().map(|e| e.sql())).collect::<Vec<_>>(),
+                    "select_list_alternatives": alt_results,
+                    "setup": w.setup,
+                    "indexes": w.index_sql,
+                    "needs_index": needs_index,
+                    "access_paths": paths,
+                })
+            } else {
+                json!({"relation": case.relation, "minimal_pair": pair_json(&min_pair)})
+            };
+            // debugging aid: TV_C19_DUMP=<file> appends every first-of-signature violation as a JSON line
+            if firstsig {
+                if let Ok(path) = std::env::var("TV_C19_DUMP") {
+                    use std::io::Write;
+                    if let Ok(mut f) = std::fs::OpenOptions::new().create(true).append(true).open(&path) {
+                        let _ = writeln!(f, "{}", json!({"sig": sig, "detail": detail}));
+                    }
+                }
+            }
+            ctx.violation(&assertion, &sig, detail);
+        }
+    }
+}
+
+
+// ---------------------------------------------------------------------------------------------
+// one database
+// ---------------------------------------------------------------------------------------------
+
+fn index_phase(ctx: &mut Ctx, rng: &mut Rng, w: &mut World, sc: &Scratch, st: &mut Stats, rows: &[Vec<Row>], nq: usize) {
+    // one or two indexed columns on t / u
+    let nidx = if rng.chance(1, 3) { 2 } else { 1 };
+    let mut targets: Vec<(usize, ScopeCol, Vec<V>)> = vec![];
+    for k in 0..nidx {
+        let ti = if nidx == 2 { k } else { rng.below(2) as usize };
+        let scope = scope_of(&w.specs[ti], None);
+        let cands: Vec<(usize, &ScopeCol)> = scope.iter().enumerate().filter(|(i, c)| *i > 0 && matches!(c.ty, Ty::Int | Ty::Text)).collect();
+        if cands.is_empty() {
+            continue;
+        }
+        let (ci, c) = *rng.pick(&cands);
+        let mut vals: Vec<V> = rows[ti].iter().map(|r| r[ci].clone()).filter(|v| !v.is_null()).collect();
+        vals.truncate(12);
+        targets.push((ti, c.clone(), vals));
+    }
+    if targets.is_empty() {
+        ctx.count("index_phase_skipped_no_candidate_column", 1);
+        return;
+    }
+    // queries + their results BEFORE the index exists
+    let mut pending: Vec<(Case, Result<(Vec<Row>, Vec<usize>), String>)> = vec![];
+    for _ in 0..nq {
+        let (ti, c, vals) = rng.pick(&targets).clone();
+        let specs = w.specs.clone();
+        let case = rel_index_query(rng, &specs, ti, &c, &vals);
+        let pair = (case.build)(&case.preds, &case.items.items);
+        let before = run_side(&mut w.db, &pair.left);
+        pending.push((case, before));
+    }
+    for (ti, c, _) in &targets {
+        let t = &w.specs[*ti].name;
+        let sql = format!("CREATE INDEX ix_{}_{} ON {} ({})", t, c.name, t, c.name);
+        match w.db.exec(&sql) {
+            Ok(_) => w.index_sql.push(sql),
+            Err(e) => {
+                ctx.violation("create_index", &format!("C19/index/create_index_failed/{}", err_class(&e)), json!({"sql": sql, "error": e, "setup": w.setup}));
+                return;
+            }
+        }
+    }
+    // re-run on the same database
+    for (case, before) in pending {
+        let pair = (case.build)(&case.preds, &case.items.items);
+        let after = run_side(&mut w.db, &pair.right);
+        let same = match (&before, &after) {
+            (Ok((b, _)), Ok((a, _))) => bag_diff(b, a).is_none(),
+            (Err(_), Err(_)) => true,
+            _ => false,
+        };
+        if same {
+            // held (or both errored): account through the common path with the recorded results
+            let v = match (before, after) {
+                (Ok((b, bs)), Ok((_, as_))) => Verdict::Held { width: b.first().map(|r| r.len()).unwrap_or(0), left_sizes: bs, right_sizes: as_ },
+                (Err(a), Err(b)) => Verdict::BothErr(a, b),
+                _ => unreachable!(),
+            };
+            run_case(ctx, w, sc, st, case, Some(v));
+        } else {
+            // disagreement between before and after: continue on (index-free twin, indexed database), which is the same comparison
+            run_case(ctx, w, sc, st, case, None);
+        }
+    }
+}
+
+fn one_db(ctx: &mut Ctx, rng: &mut Rng, sc: &Scratch, st: &mut Stats, dbi: usize, ncases: usize, nindexq: usize) -> bool {
+    let mut specs = vec![];
+    let mut rows = vec![];
+    let mut setup = vec![];
+    for (k, name) in ["t", "u", "w"].iter().enumerate() {
+        let ncols = rng.usize(2, if k == 2 { 3 } else { 5 });
+        let spec = gen_spec(rng, name, ncols, true);
+        let n = match k {
+            0 => rng.usize(6, 24),
+            1 => rng.usize(4, 14),
+            _ => rng.usize(2, 6),
+        };
+        let r = spec.gen_rows(rng, n);
+        setup.push(spec.create_sql());
+        setup.extend(spec.insert_sql(&r));
+        specs.push(spec);
+        rows.push(r);
+    }
+    let nd = rng.usize(5, 18);
+    let dialect_setup: Vec<String> = std::iter::once(DIALECT_CREATE.to_string()).chain(gen_dialect_rows(rng, nd)).collect();
+    let db = match Db::create(&sc.dir(&format!("db{}", dbi))) {
+        Ok(d) => d,
+        Err(e) => {
+            ctx.inconclusive(&format!("cannot create database: {}", e));
+            return false;
+        }
+    };
+    let mut w = World { specs, setup: vec![], index_sql: vec![], db, plain: None, dbi, dialect_ok: true };
+    for s in &setup {
+        if let Err(e) = w.db.exec(s) {
+            ctx.violation("setup", &format!("C19/setup_failed/{}", err_class(&e)), json!({"statement": s, "error": e, "setup": setup}));
+            return true;
+        }
+    }
+    w.setup = setup;
+    // the dialect table: if it is not accepted the dialect relations are not generated in this database
+    for s in &dialect_setup {
+        if let Err(e) = w.db.exec(s) {
+            w.dialect_ok = false;
+            ctx.count(&format!("dialect_setup_rejected:{}", err_class(&e)), 1);
+            if is_panic(&e) {
+                ctx.violation("no_panic", &format!("C19/dialect_setup/{}", err_class(&e)), json!({"statement": s, "error": e}));
+            }
+            break;
+        }
+    }
+    if w.dialect_ok {
+        w.setup.extend(dialect_setup);
+    }
+    w.db.log.clear();
+    let index_first = rng.chance(1, 2);
+    if index_first {
+        index_phase(ctx, rng, &mut w, sc, st, &rows, nindexq);
+    }
+    for _ in 0..ncases {
+        let specs = w.specs.clone();
+        let case = match rng.below(100) {
+            0..=17 => Some(rel_partition(rng, &specs)),
+            18..=29 => Some(rel_commute(rng, &specs)),
+            30..=44 => Some(rel_reorder(rng, &specs)),
+            45..=56 => Some(rel_add_true(rng, &specs)),
+            57..=67 => Some(rel_on_vs_where(rng, &specs)),
+            68..=77 => Some(rel_derived(rng, &specs)),
+            78..=81 => Some(rel_star_vs_cols(rng, &specs)),
+            _ => {
+                if w.dialect_ok {
+                    rel_dialect(rng, &mut w, ctx)
+                } else {
+                    None
+                }
+            }
+        };
+        if let Some(c) = case {
+            run_case(ctx, &mut w, sc, st, c, None);
+        }
+    }
+    if !index_first {
+        index_phase(ctx, rng, &mut w, sc, st, &rows, nindexq);
+    }
+    let paths: Vec<std::path::PathBuf> = std::iter::once(w.db.path.clone()).chain(w.plain.as_ref().map(|p| p.path.clone())).collect();
+    drop(w);
+    for p in paths {
+        let _ = std::fs::remove_dir_all(p);
+    }
+    true
+}
+
+pub fn run(a: &Args) -> i32 {
+    let mut ctx = Ctx::new(
+        "C19",
+        &a.tier,
+        a.seed,
+        "exploration",
+        "model-free metamorphic relations; both formulations run on the same generated TurDB database (tables t,u,w: id PK + 2..5 typed columns with NULL strata, 2..24 rows; table d: VECTOR(3) + JSONB) and their results are compared with each other as bags: (1) ternary partition WHERE p / NOT (p) / (p) IS NULL vs no WHERE over a table, a derived table, an inner join and a comma join; (2) AND/OR operands mirrored at every level, in WHERE and in ON; (3) FROM items of comma/inner joins reordered (2 and 3 tables), select items permuted (compared up to the column permutation); (4) AND 1=1 / AND id = id / OR 1=0 / WHERE 1=1; (5) predicate in ON vs WHERE vs comma-join WHERE; (6) FROM t WHERE p vs FROM (SELECT * FROM t) AS s WHERE p vs FROM (SELECT * FROM t WHERE p) AS s; (7) the same filter/join queries before and after CREATE INDEX on the filtered column (half of the databases run all other relations with the index in place); (8) relations 1,2,4 over vector-distance, JSONB -> / ->> and ROW_NUMBER()/SUM() OVER derived-table predicates, generated only after the plain form was accepted. A disagreement is shrunk with sqlm::expr::shrink_expr to a minimal predicate; a pair that errors on both sides is not judged, on one side only it is `one_side_error`. distinct_nontrivial = distinct (database, pair) whose two texts differ, returned at least one row with columns, and (partition) at least two of the three parts were non-empty",
+    );
+    ctx.max_samples = 10;
+    let mut rng = Rng::derive(a.seed, 19);
+    let quick = ctx.quick();
+    let (ndb, per_db, nindexq, deadline) = if cfg!(miri) {
+        (2, 10, 3, 1.0e9)
+    } else if quick {
+        (60, 60, 8, 48.0)
+    } else {
+        (1500, 60, 8, 540.0)
+    };
+    let scratch = Scratch::new("c19");
+    let mut st = Stats::default();
+    let mut dbs_done = 0u64;
+    for dbi in 0..ndb {
+        if ctx.elapsed() > deadline {
+            ctx.count("stopped_at_wall_budget", 1);
+            break;
+        }
+        if !one_db(&mut ctx, &mut rng, &scratch, &mut st, dbi, per_db, nindexq) {
+            break;
+        }
+        dbs_done += 1;
+    }
+    ctx.count("databases", dbs_done);
+    ctx.extra.insert("per_relation".into(), json!(st.per_relation));
+    ctx.extra.insert("violation_signatures".into(), json!(st.sigs));
+    // a relation that never produced a judged, non-trivial pair is inconclusive for that relation
+    for r in ["partition", "commute", "reorder", "star_vs_cols", "add_true", "on_vs_where", "derived", "index", "dialect_partition", "dialect_commute", "dialect_add_true"] {
+        let m = st.per_relation.get(r);
+        let seen = m.map(|m| m.get("held_nontrivial").copied().unwrap_or(0) + m.get("failed").copied().unwrap_or(0)).unwrap_or(0);
+        if seen == 0 {
+            ctx.count(&format!("relation_never_exercised:{}", r), 1);
+        }
+    }
+    ctx.assumptions.push("the generated predicates never raise run-time errors (no division, magnitudes far from overflow), so an error on exactly one side is a disagreement and short-circuit evaluation cannot explain it".into());
+    ctx.assumptions.push("window functions use ORDER BY keys ending in the unique id, so ROW_NUMBER() is deterministic".into());
+    ctx.assumptions.push("bags are compared with sqlm::cmp::bag_diff (TRUE==1, 1.0==1, floats to 9 significant digits); vectors and JSONB values are compared by their debug rendering".into());
+    ctx.finish()
 }
